@@ -34,9 +34,12 @@ ASSUME = [
 ]
 
 # verdict bit -> (category the toolchains report, default known-finding key)
-BITS = {1: ("render", "empty-enum"), 2: ("dbu", "py-nested-import"), 4: ("unique", "helper-collision"),
+BITS = {1: ("render", None), 2: ("dbu", "py-nested-import"), 4: ("unique", "helper-collision"),
         8: ("import", "import-filename"), 16: ("unused", "go-unused-import"), 32: ("layout", "empty-struct"),
-        64: ("align", "align-nonpow2"), 128: ("syntax", "str-escape"), 256: ("syntax", "empty-enum")}
+        64: ("align", "align-nonpow2"), 128: ("syntax", None)}
+# bits 1 (the Python renderer raises) and 128 (unescaped string constant) belonged to the findings
+# empty-enum and str-escape, FIXED in /repo: the model never predicts them any more, and a toolchain
+# failure of that kind is a plain VIOLATION
 MODE_TARGETS = {"c": ["TgH", "TgC"], "co": ["TgHO", "TgCO"], "cof": ["TgHO", "TgCO"], "py": ["TgPy"], "go": ["TgGo"]}
 MODE_LANG = {"c": "LC", "co": "LC", "cof": "LC", "py": "LPy", "go": "LGo"}
 TARGET_EXT = {"TgH": ".h", "TgC": ".c", "TgHO": ".h", "TgCO": ".c", "TgPy": ".py", "TgGo": ".go"}
@@ -50,6 +53,9 @@ Import ListNotations.
 Open Scope string_scope.
 Open Scope list_scope.
 """
+
+
+FIXED_CLASSES = ("empty-enum", "empty-enum-unused", "str-escape")   # must now be accepted by every toolchain
 
 
 # ---- known-class injections ------------------------------------------------------------------------
@@ -101,11 +107,13 @@ def inject(job: Dict[str, Any], cls: str, rng) -> Optional[Dict[str, Any]]:
     elif cls == "empty-enum-unused":
         add = "\nenum Void : uint3 {}\n"
     elif cls == "str-escape":
-        add = '\nconst QUOTED = "say \\"hi\\""\n'
+        add = ('\nconst QUOTED = "say \\"hi\\""\nconst BACKSLASHED = "a\\\\b"\n'
+               'const LINES = "one\\ntwo\\r\\tend"\n')
     else:
         return None
     files[root] += add
-    return {"files": files, "order": order, "filter": job.get("filter") or [], "origin": f"inside-known-class:{cls}"}
+    tag = "feature-of-fixed-finding" if cls in FIXED_CLASSES else "inside-known-class"
+    return {"files": files, "order": order, "filter": job.get("filter") or [], "origin": f"{tag}:{cls}"}
 
 
 # ---- one job -> Coq --------------------------------------------------------------------------------
@@ -215,7 +223,7 @@ def observed(job: Dict[str, Any], r: Dict[str, Any], mode: str) -> Tuple[Set[str
 def key_for(bit: int, guards: int, lang: str) -> Optional[str]:
     """known-finding key that EXPLAINS a predicted verdict bit, from the guard mask of the schema"""
     if bit == 1:
-        return "empty-enum" if guards & 32 else None
+        return None
     if bit == 2:
         return "py-nested-import" if guards & 8 else None
     if bit == 4:
@@ -232,10 +240,6 @@ def key_for(bit: int, guards: int, lang: str) -> Optional[str]:
         return "empty-struct" if guards & 128 else None
     if bit == 64:
         return "align-nonpow2" if guards & 256 else None
-    if bit == 128:
-        return "str-escape"
-    if bit == 256:
-        return "empty-enum" if guards & 32 else None
     return None
 
 
@@ -465,7 +469,7 @@ def run(ck: Check) -> None:
                     continue
                 key = key_for(b, guards, L)
                 cat = BITS[b][0]
-                seen = cat in cats or (b == 1 and "render" in cats) or (b in (128, 256) and bool(cats & {"dbu", "other", "syntax"}))
+                seen = cat in cats or (b == 1 and "render" in cats) or (b == 128 and bool(cats & {"dbu", "other", "syntax"}))
                 masked = ("import" in cats or "render" in cats or "syntax" in cats) and not seen
                 if not seen and not masked:
                     ck.broken(Broken(f"tie T2: the model predicts a '{cat}' failure for {jb['origin']} ({mode}) that the "
